@@ -4,9 +4,26 @@ Proof (Props/C06.lean; details in that file's header): `save_twice_witness` (F13
 `save_twice_no_segments` (any class: save of a segment-less object is idempotent on its own output),
 `save_twice` / `save_idempotent_on_settled` (ELF64, flat or nested segments, none at file offset 0, side
 conditions `ResaveOk` = no F13 trigger and non-zero segment starts: a second successful save returns the
-same result), with the ladder `stepCore_resave` .. `segRun_resave`.  Stated, not proved:
-`SaveLoadSaveStatement`; ELF32 and offset-0 segments (loaded executables) are covered by the
-correspondence run and the oracle only.  Correspondence: family load.
+same result), with the ladder `stepCore_resave` .. `segRun_resave`.
+ANY CLASS (Props/C06Cls.lean): `save_twice_cls` / `save_idempotent_on_settled_cls` are save_twice for ELF32 and
+ELF64 alike (ladder `stepCore_resave_cls` .. `segRun_resave_cls`), under `ResaveOkC` = ResaveOk plus two side
+conditions that only bite in ELF32: an address the writer assigns to a member fits the 32-bit field (else the
+second save derives the gap from the truncated address), and every segment's start offset fits the 32-bit field
+(else the stored p_offset is not where the segment was laid out).  `resaveOkC_of_c64`: in ELF64 ResaveOkC is
+ResaveOk (save_twice_cls contains save_twice).  `resaveOkB`/`resaveOkC_of_B`: a Bool-valued sufficient condition;
+`exObj32_resave`: an ELF32 big-endian object with a PT_LOAD, a nested segment and a loose section meets every
+hypothesis and both saves succeed.
+SEGMENTS AT FILE OFFSET 0 (same file): `save_twice_front` / `save_idempotent_front` replace `NoZeroOffset` by
+`FrontOk` = NoZeroOffset OR AllOffsetSet (every segment's offset is initialised - every loaded or previously saved
+object - and a section-less PT_PHDR is not at offset 0): the first loop of get_ordered_segments (`orderFront`) then
+reads of a segment only whether its offset is 0, a save keeps that (`SegRun.front_cls`), so the loop commutes with
+the save (`orderFront_go_map`, `orderedSegments_map_front`; `orderedSegments_perm_any`: the order is a permutation
+with or without offset-0 segments).  `exLoadedLike_resave`: a loader-like object whose first PT_LOAD is at offset 0
+meets the hypotheses and both saves succeed.  Observation (not reachable through the public API, so not a
+finding): orderFront tests `worklist[nextSlot]->get_offset() == 0` WITHOUT is_offset_initialized(); a never-laid-out
+segment listed before a segment at offset 0 would be ordered differently by the second save - segments.add only
+appends and set_offset is protected, so such a list cannot be built.  Stated, not proved:
+`SaveLoadSaveStatement`.  Correspondence: family load.
 Oracle: bytes of the first save == bytes of a second save of the same object; bytes of
 save(load(save(obj))) == bytes of save(obj).  Known open finding F13 (address-less NOBITS member with
 an alignment gap: the first save advances the file cursor by the gap, later saves do not) is keyed by
@@ -17,7 +34,7 @@ from families import c03 as _c03
 
 PROPERTY = "C06"
 FAMILY = "load"
-LEAN_MODULE = "ElfioVerif.Props.C06"
+LEAN_MODULE = "ElfioVerif.Props.C06Cls"
 THEOREMS = ["ElfioVerif.C06.save_twice_witness",
             "ElfioVerif.C06.save_twice_witness_offsets",
             "ElfioVerif.C06.save_twice_witness_byte",
@@ -31,7 +48,23 @@ THEOREMS = ["ElfioVerif.C06.save_twice_witness",
             "ElfioVerif.C06.layoutSegment_resave",
             "ElfioVerif.C06.segRun_resave",
             "ElfioVerif.C06.save_twice",
-            "ElfioVerif.C06.save_idempotent_on_settled"]
+            "ElfioVerif.C06.save_idempotent_on_settled",
+            "ElfioVerif.C06.stepCore_resave_cls",
+            "ElfioVerif.C06.wsdStep_resave_cls",
+            "ElfioVerif.C06.wsdLoop_resave_cls",
+            "ElfioVerif.C06.layoutSegment_resave_cls",
+            "ElfioVerif.C06.segRun_resave_cls",
+            "ElfioVerif.C06.save_twice_cls",
+            "ElfioVerif.C06.save_idempotent_on_settled_cls",
+            "ElfioVerif.C06.resaveOkC_of_c64",
+            "ElfioVerif.C06.resaveOkC_of_B",
+            "ElfioVerif.C06.exObj32_resave",
+            "ElfioVerif.C06.orderFront_go_map",
+            "ElfioVerif.C06.orderedSegments_map_front",
+            "ElfioVerif.C06.orderedSegments_perm_any",
+            "ElfioVerif.C06.save_twice_front",
+            "ElfioVerif.C06.save_idempotent_front",
+            "ElfioVerif.C06.exLoadedLike_resave"]
 SITES = ["save_", "lsws", "lst_", "lseg", "wsd"]
 RULE = ("writer-domain programs x 4 configurations: save, save again, reload (eager or lazy), save; plus "
         "well-formed bundled examples: load, save, reload, save; non-trivial = first save succeeded and the "
